@@ -190,6 +190,7 @@ struct Rec {
   std::string cmdline;
   std::map<std::string, FileState> ins, outs;
   std::vector<std::string> discovered;
+  std::map<std::string, std::string> aliasDefs;   // phony aliases on the way to the inputs: their input lists as last seen
 };
 
 struct Run;
@@ -277,6 +278,15 @@ struct Run {
     return out;
   }
 
+  static std::string aliasDef(const Stmt& a) {
+    std::string d;
+    for (auto& i : a.explicitIns) d += i + " ";
+    d += "|";
+    for (auto& i : a.implicitIns) d += i + " ";
+    d += "|";
+    for (auto& i : a.orderOnly) d += i + " ";
+    return d;
+  }
   // what the tool sees of a statement: inputs that are phony aliases are not files and are not read
   wb::Cmd cmdFor(const Stmt& st) const {
     wb::Cmd c = st.asCmd();
@@ -367,10 +377,10 @@ struct Run {
       c.write(2, "simulated failure\n");
       return 1;
     }
-    if (mode == "signal") {
+    if (mode == "signal" || mode == "sigkill") {
       execs.push_back({buildNo, name, false});
-      ev("tool-end " + name + " signal");
-      c.dieBySignal(SIGSEGV);
+      ev("tool-end " + name + " " + mode);
+      c.dieBySignal(mode == "sigkill" ? SIGKILL : SIGSEGV);   // SIGKILL: from outside the build (nobody cancelled anything)
       return 0;
     }
     if (st->rsp) {
@@ -550,6 +560,18 @@ struct Run {
           if (!p || p->phony) continue;
           upChanged = or3(upChanged, pathChanged.count(d) ? pathChanged[d] : pChanged[p->name]);
           upValue = or3(upValue, pathValue.count(d) ? pathValue[d] : pValue[p->name]);
+          // ... or ran, with another command line, in an invocation that did not reach this statement
+          if (recs.count(p->name) && r->seenCmd.count(d) && r->seenCmd[d] != recs[p->name].cmdline) upValue = or3(upValue, M);
+        }
+      // an alias whose own input list was edited since this statement last ran has another value now: whether that alone
+      // re-runs its consumers is not prescribed (ninja would look at the files only)
+      if (r && status == Rec::Ok)
+        for (auto* a : aliases) {
+          auto it = r->aliasDefs.find(a->name);
+          if (it == r->aliasDefs.end() || it->second != aliasDef(*a)) {
+            upChanged = or3(upChanged, M);
+            upValue = or3(upValue, M);
+          }
         }
       // an alias with nothing behind it (and no file of that name) always propagates
       for (auto* a : aliases)
@@ -672,6 +694,10 @@ struct Run {
       args.push_back("-k");
       args.push_back(std::to_string(keepGoing));
     }
+    if (getenv("VSIM_NINJA_TRACE")) {
+      args.push_back("--trace");
+      args.push_back("/sim/trace-" + std::to_string(buildNo) + ".txt");
+    }
     for (auto& t : targets) args.push_back(t);
     int rc;
     {
@@ -681,6 +707,10 @@ struct Run {
       sim::set_child_role("");
     }
     simfs::useSimCwd(false);
+    if (getenv("VSIM_NINJA_TRACE")) {
+      std::string t;
+      if (simfs::fs().readFile("/sim/trace-" + std::to_string(buildNo) + ".txt", &t) == 0) fprintf(stderr, "=== engine trace of invocation %d ===\n%s\n", buildNo, t.c_str());
+    }
     ev("build-end rc=" + std::to_string(rc));
     res.counters["invocations"]++;
     bool ok = rc == 0;
@@ -837,6 +867,11 @@ struct Run {
         r.status = Rec::Ok;
         r.cmdline = s->commandLine();
         if (s->generator && recs.count(s->name) && recs[s->name].status == Rec::Ok && !ranOk.count(s->name)) r.cmdline = recs[s->name].cmdline;
+        {
+          std::vector<const Stmt*> als;
+          effectiveInputs(*s, &als);
+          for (auto* a : als) r.aliasDefs[a->name] = aliasDef(*a);
+        }
         for (auto& i : effectiveInputs(*s)) {
           r.ins[i] = stateOf(i);
           if (const Stmt* ip = man.producer(i)) {
@@ -854,7 +889,11 @@ struct Run {
           } else if (recs.count(s->name)) {
             r.discovered = recs[s->name].discovered;
           }
-          for (auto& d : r.discovered) r.ins[d] = stateOf(d);
+          for (auto& d : r.discovered) {
+            r.ins[d] = stateOf(d);
+            const Stmt* dp = man.producer(d);
+            if (dp && !dp->phony && recs.count(dp->name)) r.seenCmd[d] = recs[dp->name].cmdline;
+          }
         }
         recs[s->name] = r;
       }
@@ -1156,7 +1195,7 @@ public:
         std::string victim = names[rng.below(names.size())];
         // the command exits non-zero, dies from a signal, or cannot be started at all
         unsigned fm = (unsigned)rng.below(10);
-        hist.push(Json::obj().set("op", "fail").set("name", victim).set("mode", fm < 6 ? "exit" : fm < 8 ? "signal" : "spawn"));
+        hist.push(Json::obj().set("op", "fail").set("name", victim).set("mode", fm < 5 ? "exit" : fm < 7 ? "signal" : fm < 8 ? "sigkill" : "spawn"));
         const Stmt* vs = man.byName(victim);
         hist.push(Json::obj().set("op", "delete").set("path", vs->outs[0]));
         addBuild();
